@@ -19,13 +19,16 @@ pub const TEXT_WORDS: &[&str] = &[
 ];
 pub const PUNCT: &[&str] = &[",", ".", ";", "!", ":", "(", ")", "'", "/", "&", "%", "*", "+", "?", "|", "-", "…", "—", ">", "="];
 pub const ESCAPED: &[char] = &['@', '#', '~', '{', '}', '\\', '[', '-', '>', '=', 'é', 'a', '|', '%'];
-pub const TEXT_NUMS: &[&str] = &["2", "350", "10", "1", "45"];
-pub const UNITS: &[&str] = &["g", "kg", "ml", "l", "cup", "cups", "tsp", "tbsp", "oz", "lb", "bag", "cloves", "big pinch", "fl oz", "L", "grams"];
+pub const TEXT_NUMS: &[&str] = &["2", "350", "10", "1", "45", "\u{2212}5", "±2", "\u{2212}18"];
+pub const UNITS: &[&str] = &["g", "kg", "ml", "l", "cup", "cups", "tsp", "tbsp", "oz", "lb", "bag", "cloves", "big pinch", "fl oz", "L", "grams", "EL", "Pkg"];
 pub const TIME_UNITS: &[&str] = &["min", "minutes", "h", "hours", "s", "sec", "d", "day", "secs", "mins", "minute", "hour", "seconds", "days"];
 pub const TEXT_VALUES: &[&str] = &["a pinch", "some", "to taste", "handful", "a dash", "half a", "plenty", "one or two"];
 pub const INLINE_UNITS: &[&str] = &["ºC", "°F", "kg", "ml", "C", "minutes"];
 pub const INLINE_NUMS: &[&str] = &["180", "350", "2", "1.5", "0.5"];
-pub const META_KEYS: &[&str] = &["note", "origin", "my key", "wine pairing", "x", "Kitchen", "season", "equipment notes", "clé", "rating"];
+pub const META_KEYS: &[&str] = &[
+    "note", "origin", "my key", "wine pairing", "x", "Kitchen", "season", "equipment notes", "clé", "rating", "k1", "k2", "k3", "diet", "cuisine", "difficulty",
+    "image", "nota bene",
+];
 pub const META_VALUES: &[&str] = &["value", "a longer value", "https://example.org/a?b=c", "1", "yes: no", "Ünïcode ✓", "it's \"quoted\"", "a, b, c", "3.5 stars"];
 pub const SECTION_NAMES: &[&str] = &["Dough", "Filling", "To serve", "Step 2 prep", "Crème", "sauce & sides"];
 pub const STEP_LINES: &[&str] = &[">> note: remember the oven", ">> [optional: add more of it", ">> see note [a]: later", ">> wine pairing: red", ">> my key : spaced out", ">>x:y"];
@@ -160,7 +163,7 @@ fn raw_qty() -> impl Strategy<Value = RawQty> {
         .prop_map(|(lock, val, unit, blank_sep)| RawQty { lock: lock && blank_sep, val, unit, blank_sep })
 }
 
-fn raw_comp() -> impl Strategy<Value = RawComp> {
+fn raw_comp(inter: f64) -> impl Strategy<Value = RawComp> {
     (
         (
             proptest::bool::weighted(0.25),
@@ -170,7 +173,7 @@ fn raw_comp() -> impl Strategy<Value = RawComp> {
             0u8..32,
         ),
         (
-            proptest::option::weighted(0.22, (0u8..4, 0u8..3)),
+            proptest::option::weighted(inter, (0u8..4, 0u8..3)),
             proptest::option::weighted(0.15, 0u8..NAME_WORDS.len() as u8),
             proptest::option::weighted(0.6, raw_qty()),
             proptest::option::weighted(0.2, proptest::collection::vec(0u8..TEXT_WORDS.len() as u8, 0..=3)),
@@ -202,26 +205,43 @@ fn raw_timer() -> impl Strategy<Value = RawTimer> {
         .prop_map(|(name, num, range_to, unit, no_qty)| RawTimer { name, num, range_to, unit, no_qty })
 }
 
-fn raw_tok() -> impl Strategy<Value = RawTok> {
+fn raw_tok(inter: f64) -> impl Strategy<Value = RawTok> {
     prop_oneof![
         8 => (0u8..TEXT_WORDS.len() as u8).prop_map(RawTok::Word),
         3 => (0u8..PUNCT.len() as u8).prop_map(RawTok::Punct),
         1 => (0u8..ESCAPED.len() as u8).prop_map(RawTok::Escaped),
         1 => (0u8..TEXT_NUMS.len() as u8).prop_map(RawTok::Num),
-        5 => raw_comp().prop_map(RawTok::Comp),
+        5 => raw_comp(inter).prop_map(RawTok::Comp),
         2 => raw_timer().prop_map(RawTok::Timer),
         1 => (0u8..INLINE_NUMS.len() as u8, 0u8..INLINE_UNITS.len() as u8, any::<bool>()).prop_map(|(a, b, c)| RawTok::Inline(a, b, c)),
     ]
 }
 
-fn raw_block() -> impl Strategy<Value = RawBlock> {
+/// what a generated recipe is rich in
+#[derive(Debug, Clone, Copy, PartialEq, Eq)]
+pub enum Profile {
+    Default,
+    /// many sections (half of them unnamed, so empty ones occur) and many intermediate references
+    Sections,
+    /// many old-style metadata entries (8 or more `>>` lines are common), no front matter
+    Metas,
+}
+
+fn raw_block(p: Profile) -> impl Strategy<Value = RawBlock> {
+    // weights: step, section, text, mode, meta, std meta; probability of a section name
+    let (w, named): ([u32; 6], f64) = match p {
+        Profile::Default => ([10, 2, 2, 2, 2, 1], 0.85),
+        Profile::Sections => ([8, 7, 1, 1, 1, 1], 0.5),
+        Profile::Metas => ([3, 1, 1, 1, 12, 3], 0.85),
+    };
+    let inter = if p == Profile::Sections { 0.6 } else { 0.22 };
     prop_oneof![
-        10 => proptest::collection::vec((proptest::bool::weighted(0.85), raw_tok()), 1..=7).prop_map(RawBlock::Step),
-        2 => proptest::option::weighted(0.85, 0u8..SECTION_NAMES.len() as u8).prop_map(RawBlock::Section),
-        2 => proptest::collection::vec(proptest::collection::vec(0u8..TEXT_WORDS.len() as u8, 1..=5), 1..=3).prop_map(RawBlock::Text),
-        2 => (0u8..6).prop_map(RawBlock::Mode),
-        2 => (0u8..META_KEYS.len() as u8, 0u8..META_VALUES.len() as u8).prop_map(|(k, v)| RawBlock::Meta(k, v)),
-        1 => (0u8..10).prop_map(RawBlock::StdMeta),
+        w[0] => proptest::collection::vec((proptest::bool::weighted(0.85), raw_tok(inter)), 1..=7).prop_map(RawBlock::Step),
+        w[1] => proptest::option::weighted(named, 0u8..SECTION_NAMES.len() as u8).prop_map(RawBlock::Section),
+        w[2] => proptest::collection::vec(proptest::collection::vec(0u8..TEXT_WORDS.len() as u8, 1..=5), 1..=3).prop_map(RawBlock::Text),
+        w[3] => (0u8..6).prop_map(RawBlock::Mode),
+        w[4] => (0u8..META_KEYS.len() as u8, 0u8..META_VALUES.len() as u8).prop_map(|(k, v)| RawBlock::Meta(k, v)),
+        w[5] => (0u8..12).prop_map(RawBlock::StdMeta),
     ]
 }
 
@@ -242,15 +262,33 @@ fn raw_yaml() -> impl Strategy<Value = RawYaml> {
 }
 
 pub fn raw_recipe(ext: Option<bool>) -> impl Strategy<Value = RawRecipe> {
+    prop_oneof![
+        8 => raw_recipe_with(ext, Profile::Default),
+        1 => raw_recipe_with(ext, Profile::Sections),
+        1 => raw_recipe_with(ext, Profile::Metas),
+    ]
+}
+
+pub fn raw_recipe_with(ext: Option<bool>, p: Profile) -> impl Strategy<Value = RawRecipe> {
     let ext_s = match ext {
         Some(b) => Just(b).boxed(),
         None => any::<bool>().boxed(),
     };
+    let (front_p, blocks) = match p {
+        Profile::Default => (0.3, 1..=10usize),
+        Profile::Sections => (0.2, 4..=14usize),
+        Profile::Metas => (0.0, 8..=20usize),
+    };
+    let front_s = if front_p > 0.0 {
+        proptest::option::weighted(front_p, proptest::collection::vec((0u8..META_KEYS.len() as u8, raw_yaml()), 0..4)).boxed()
+    } else {
+        Just(None).boxed()
+    };
     (
         ext_s,
-        proptest::option::weighted(0.3, proptest::collection::vec((0u8..META_KEYS.len() as u8, raw_yaml()), 0..4)),
-        proptest::collection::vec(0u8..10, 0..3),
-        proptest::collection::vec(raw_block(), 1..=10),
+        front_s,
+        proptest::collection::vec(0u8..12, 0..3),
+        proptest::collection::vec(raw_block(p), blocks),
         proptest::collection::vec(any::<u16>(), 0..120),
     )
         .prop_map(|(ext, front, front_std, blocks, tape)| RawRecipe { ext, front, front_std, blocks, tape })
@@ -262,6 +300,8 @@ pub fn raw_recipe(ext: Option<bool>) -> impl Strategy<Value = RawRecipe> {
 fn num_of(r: &RawNum) -> NumM {
     match r {
         RawNum::Int(i) => NumM::Int(*i as u32),
+        // a tenth of the decimals are written without the integer part: `.5`, `.05`
+        RawNum::Dec(a, b) if *a >= 270 => NumM::Dec(format!(".{}", DEC_FRACS[*b as usize % DEC_FRACS.len()])),
         RawNum::Dec(a, b) => NumM::Dec(format!("{}.{}", a, DEC_FRACS[*b as usize % DEC_FRACS.len()])),
         RawNum::Frac(a, b) => NumM::Frac(*a as u32, (*b).max(1) as u32),
         RawNum::Mixed(w, a, b) => NumM::Mixed(*w as u32, *a as u32, (*b).max(1) as u32),
@@ -269,9 +309,16 @@ fn num_of(r: &RawNum) -> NumM {
     }
 }
 
+/// the keys that declare servings
+pub fn is_servings_key(k: &str) -> bool {
+    matches!(k, "servings" | "serves" | "yield")
+}
+
 /// standard metadata entries with valid values: (key, `>>` value text, yaml value)
 pub fn std_meta(i: u8) -> (&'static str, &'static str, YamlM) {
-    match i % 10 {
+    match i % 12 {
+        10 => ("serves", "4", YamlM::Int(4)),
+        11 => ("yield", "6|12", YamlM::List(vec![YamlM::Int(6), YamlM::Int(12)])),
         8 => ("servings", "6|2|4", YamlM::List(vec![YamlM::Int(6), YamlM::Int(2), YamlM::Int(4)])),
         9 => ("servings", "12 small|3 big", YamlM::List(vec![YamlM::Str("12 small".into()), YamlM::Str("3 big".into())])),
         0 => ("servings", "4", YamlM::Int(4)),
@@ -608,7 +655,7 @@ pub fn build_with(raw: &RawRecipe, strict: bool, bare_timers: bool) -> RecipeM {
         let mut out: Vec<(String, YamlM)> = vec![];
         for s in &raw.front_std {
             let (k, _, y) = std_meta(*s);
-            if !out.iter().any(|(k2, _)| k2 == k) {
+            if !out.iter().any(|(k2, _)| k2 == k || (is_servings_key(k) && is_servings_key(k2))) {
                 out.push((k.to_string(), y));
             }
         }
@@ -682,7 +729,7 @@ pub fn build_with(raw: &RawRecipe, strict: bool, bare_timers: bool) -> RecipeM {
                     continue;
                 }
                 let (k, v, _) = std_meta(*s);
-                if used_keys.iter().any(|u| u == k) {
+                if used_keys.iter().any(|u| u == k || (is_servings_key(k) && is_servings_key(u))) {
                     continue;
                 }
                 if (k == "time" && used_keys.iter().any(|u| u == "prep time")) || (k == "prep time" && used_keys.iter().any(|u| u == "time")) {
